@@ -38,6 +38,6 @@ Example C18_example :
   let h := mkDh [AStatic [(qz 0, qz 1); (qz 1, qz 2)] true] I64 I64 I64 (map qz [3; 4]%Z) (map qz [3; 4]%Z) [Fin 0; Fin 0; Fin 0] in
   let big := mkDh [AStatic [(qz 0, qz 1); (qz 1, qz 2)] true] F64 F64 F64 (map qz [9; 1]%Z) (map qz [9; 1]%Z) [Fin 0; Fin 0; Fin 0] in
   map (fun x => (snd x, y_dt (fst x))) (drun h [DSub big; DMul (qz (-1)) "pyfloat"; DSet I16; DMul (qz 2) "bool"])
-  = [(true, I64); (true, F64); (false, I16); (true, I16)] /\
+  = [(true, I64); (true, I64); (false, I16); (true, I16)] /\      (* the refused negative factor no longer promotes the dtype *)
   closel 0 (y_freq (fst (last (drun h [DSub big; DMul (qz (-1)) "pyfloat"]) (h, false)))) (map qz [3; 4]%Z) = true.
 Proof. vm_compute. split; reflexivity. Qed.
